@@ -195,15 +195,18 @@ def check_ionq_results(ctx, cirq, cirq_ionq, n):
         keys = {}
         free = list(range(nq))
         rng.shuffle(free)
-        for j in range(rng.choice([1, 1, 2])):
+        for j in range(rng.choice([1, 2, 2, 3])):
             if not free:
                 break
             take = rng.randint(1, len(free))
             keys[f'k{j}'], free = free[:take], free[take:]
         shots = rng.choice([1, 10, 100])
-        support = rng.sample(range(2**nq), min(2**nq, rng.randint(1, 4)))
-        if rng.random() < 0.5:
-            counts = [rng.randint(1, 5) for _ in support]
+        support = rng.sample(range(2**nq), min(2**nq, rng.randint(1, 6)))
+        if i == 0:
+            # corpus (seeded change C17-m3): three outcomes, two keys - the rows of different keys must come from the same shot
+            nq, keys, support = 2, {'k0': [0], 'k1': [1]}, [0, 2, 1]
+        if i == 0 or rng.random() < 0.75:
+            counts = [rng.randint(1, 5) for _ in support] if i else [1, 2, 1]
             tot = sum(counts)
             shots = tot
             hist = {str(v): c / tot for v, c in zip(support, counts)}
